@@ -853,6 +853,7 @@ ldb_recover_log_file(ldb_t *db, uint64_t log_number,
   int compactions = 0;
   ldb_memtable_t *mem = NULL;
   ldb_reader_t reader;
+  uint64_t good_end = 0; /* Offset just past the last complete record. */
 
   ldb_mutex_assert_held(&db->mutex);
 
@@ -887,6 +888,8 @@ ldb_recover_log_file(ldb_t *db, uint64_t log_number,
   /* Read all the records and add to a memtable. */
   while (ldb_reader_read_record(&reader, &record, &buf) && rc == LDB_OK) {
     ldb_seqnum_t last_seq;
+
+    good_end = reader.end_offset - reader.buffer.size;
 
     if (record.size < 12) {
       /* "log record too small" */
@@ -943,7 +946,11 @@ ldb_recover_log_file(ldb_t *db, uint64_t log_number,
     assert(db->log == NULL);
     assert(db->mem == NULL);
 
+    /* Do not append to a log whose tail is torn or corrupt: records
+       written behind the damaged bytes would be dropped by the next
+       recovery. Such a log is compacted and replaced instead. */
     if (ldb_file_size(fname, &lfile_size) == LDB_OK &&
+        lfile_size == good_end &&
         ldb_appendfile_create(fname, &db->logfile) == LDB_OK) {
       ldb_log(db->options.info_log, "Reusing old log %s", fname);
 
